@@ -102,6 +102,31 @@ CHECKS = {
         "out": ["byte-level input (C02)", "real TLS", "ServerBuilder.buildAuthenticate adapters"],
         "assumptions": ["Authenticate returns a non-nil result when its error is nil; callbacks return normally"],
     },
+    "C04": {
+        "level_text": "Two established channels joined by the real in-process transport run as symbolic threads: 1-2 sender goroutines issuing a symbolic mix "
+                      "of messages, notifications, request and response commands through the real Send* / sendToTransport, the real receiver goroutine "
+                      "(receiveFromTransport, trySubmitCommandResult) and the real dispatch loop with recording handlers on the other side, buffer sizes 0 "
+                      "and 1, every thread choice at blocking points explored (plus P pre-emptions in the thorough tier). Verdicts: every envelope whose "
+                      "send succeeded is delivered exactly once (pointer identity), nothing else is delivered, and same-kind envelopes of one sender keep "
+                      "their order. A one-step lemma shows that the receiver puts an arbitrary inbound envelope on exactly one stream, of its kind, as "
+                      "received. The TCP byte/frame path is C12's claim, dispatch-to-one-handler is C20's.",
+        "level_note": "Trusted: SSA->SMT executor, bounded cooperative scheduler (no instruction-level races), FIFO semantics of Go channels as modelled, z3. "
+                      "Bounds: <= 2 senders, <= 2 envelopes each, buffers {0,1}, P = 0 / 1. Real sockets, TLS, gorilla framing and payload sizes are outside the claim.",
+        "runs": [
+            {"harness": "HarnessC04Route", "reach": ["c04:receiver-ran"], "threads": True},
+            {"harness": "HarnessC04Pipe", "grid": {"buf": [0, 1], "tbuf": [0, 1]}, "params": {"sched": 1, "senders": 1, "per": 2},
+             "reach": ["c04:settled"], "threads": True, "tier": "quick"},
+            {"harness": "HarnessC04Pipe", "grid": {"buf": [0, 1]}, "params": {"sched": 1, "senders": 2, "per": 1, "tbuf": 0},
+             "reach": ["c04:settled"], "threads": True, "tier": "quick"},
+            {"harness": "HarnessC05Match", "grid": {"order": [0, 1]}, "params": {"sched": 1, "requesters": 2, "responses": 2},
+             "reach": ["c05:settled"], "threads": True},
+            {"harness": "HarnessC04Pipe", "grid": {"buf": [0, 1], "tbuf": [0, 1]}, "params": {"sched": 1, "P": 1, "senders": 2, "per": 2},
+             "reach": ["c04:settled"], "threads": True, "tier": "thorough", "timeout": 7000},
+        ],
+        "bounds": {"quick": {"senders": 2, "envelopes_per_sender": 2, "preemptions": 0}, "thorough": {"senders": 2, "envelopes_per_sender": 2, "preemptions": 1}},
+        "out": ["real sockets, TLS, WebSocket framing", "payload sizes (C12/C16)", "more than two senders", "instruction-level data races"],
+        "assumptions": [],
+    },
     "C05": {
         "level_text": "The real channel.processCommand / trySubmitCommandResult / receiveFromTransport run as symbolic threads: two requester goroutines with "
                       "symbolic ids (so 'two requests share an id' is a solver decision), a receiver fed a scripted sequence of responses with symbolic ids "
@@ -288,6 +313,26 @@ CHECKS = {
         "bounds": {"quick": {"script_depth": 4}, "thorough": {"script_depth": 5}},
         "out": ["real transports' own goroutines", "the client-side half of the statement beyond 'the server closed the connection'"],
         "assumptions": ["callbacks return normally"],
+    },
+    "C17": {
+        "level_text": "The real Server.consumeTransports / handleChannel / NewServerChannel / EstablishSession / sessionContext / EnvelopeMux.listen run as "
+                      "symbolic threads over two connections that are both waiting in the backlog when the server starts: each is served by a cooperative "
+                      "scripted client (handshake, then data messages), the Register callback assigns an address different from the candidate, the "
+                      "handler replies through the Sender it was given; every thread choice at blocking points is explored. Verdicts: both connections get "
+                      "a session, the ids are distinct and equal the ids announced to their clients, the handler's context carries that session's id, "
+                      "local node and registered remote node, the reply is written to the same session's connection and never to the other, every "
+                      "message is handled once, and stopping the server closes both connections.",
+        "level_note": "Trusted: SSA->SMT executor, bounded cooperative scheduler (no instruction-level races), uuid values modelled as pairwise distinct, z3. "
+                      "Bounds: 2 sessions, 1 / 2 data messages each, channel buffer {0,1}, P = 0 / 1.",
+        "runs": [
+            {"harness": "HarnessC17Sessions", "grid": {"buf": [0, 1]}, "params": {"sched": 1, "msgs": 1}, "reach": ["c17:sessions-settled"],
+             "threads": True, "tier": "quick"},
+            {"harness": "HarnessC17Sessions", "grid": {"buf": [0, 1]}, "params": {"sched": 1, "P": 1, "msgs": 2}, "reach": ["c17:sessions-settled"],
+             "threads": True, "tier": "thorough", "timeout": 7000},
+        ],
+        "bounds": {"quick": {"sessions": 2, "messages": 1}, "thorough": {"sessions": 2, "messages": 2, "preemptions": 1}},
+        "out": ["uuid collisions", "more than two sessions (symmetry argument only)", "instruction-level data races", "mixed real transports"],
+        "assumptions": ["uuid.NewString returns pairwise distinct values"],
     },
     "C20": {
         "level_text": "EnvelopeMux.handleMessage/Notification/RequestCommand/ResponseCommand and the listen loop are executed symbolically over symbolic "
